@@ -46,3 +46,81 @@ def violation(part, idx, group, example, what, replay):
         if v[0] == group:
             return
     part.violations.append((group, str(example), what, core.jsonable(replay), idx))
+
+
+def cmp_full(fields=(0, 1, 3, 4, 5, 6, 7, 8), ctxs=None):
+    """Comparison of a real run with the reference: per tick events (optionally restricted to
+    contexts) and the selected snapshot fields of every framer; run length; trailing events."""
+    def cmp(rr, ro):
+        n = min(len(rr.ticks), len(ro.ticks))
+        for k in range(n):
+            a = [e for e in rr.events[k] if ctxs is None or e[2] in ctxs]
+            b = [e for e in ro.events[k] if ctxs is None or e[2] in ctxs]
+            if a != b:
+                return ("events-differ-from-reference", "tick %d events %r, reference %r" % (k, a, b))
+            for x, y in zip(rr.ticks[k]["framers"], ro.ticks[k]["framers"]):
+                xa = tuple(tuple(x[i]) if isinstance(x[i], (list, tuple)) else x[i] for i in fields)
+                ya = tuple(tuple(y[i]) if isinstance(y[i], (list, tuple)) else y[i] for i in fields)
+                if xa != ya:
+                    return ("state-differs-from-reference", "tick %d snapshot fields %r: %r, reference %r" % (k, fields, xa, ya))
+            if rr.ticks[k]["shares"] != ro.ticks[k]["shares"]:
+                return ("shares-differ-from-reference", "tick %d shares %r, reference %r" % (k, rr.ticks[k]["shares"], ro.ticks[k]["shares"]))
+        if len(rr.ticks) != len(ro.ticks):
+            return ("run-length-differs", "real ran %d ticks, reference %d" % (len(rr.ticks), len(ro.ticks)))
+        a = [e for e in rr.events[-1] if ctxs is None or e[2] in ctxs]
+        b = [e for e in ro.events[-1] if ctxs is None or e[2] in ctxs]
+        if a != b:
+            return ("final-events-differ-from-reference", "events of the stop/abort sweep %r, reference %r" % (a, b))
+        return None
+    return cmp
+
+
+def explore_and_check(p, idx, label, prog, mons=(), cmp=None, depth=None, alphabet=None, back_alphabet=None,
+                      watch=(), sample_every=499, outcome=None):
+    """BFS over env histories of one program; monitors mons: fn(prog, rr, envf) -> [(group, detail)];
+    cmp(rr, ro) -> None | (group, detail) against the reference interpreter."""
+    from mc.flo import explore, families as F, lang, conform
+
+    def on_run(prog, envf, envb, rr, text, br):
+        p.evaluations += 1
+        ex = "%s envf=%s envb=%s" % (label, sorted(envf.items()), sorted(envb.items())) if envb else \
+             "%s env=%s" % (label, sorted(envf.items()))
+        if rr is None:
+            violation(p, idx, "build-failed|%s|%s" % (br.kind, str(br.exc)[:80]), label,
+                      "family program does not build: %s %r" % (br.kind, br.exc), dict(text=text))
+            return True
+        if rr.outcome != "returned":
+            violation(p, idx, "run-" + rr.outcome, ex, "run did not return: %s %r" % (rr.outcome, rr.exc), dict(text=text, envf=envf, envb=envb))
+            return True
+        for m in mons:
+            probs = m(prog, rr, envf)
+            if probs:
+                g, d = probs[0]
+                violation(p, idx, g, ex, d, dict(text=text, envf=envf, envb=envb, problems=probs[:5]))
+                return True
+        if cmp is not None:
+            try:
+                ro = conform.run_ref(prog, len(rr.ticks), envf, envb, watch=watch)
+            except Exception as exn:
+                raise core.BrokenCheck("reference interpreter failed on %s: %r" % (label, exn))
+            d = cmp(rr, ro)
+            if d:
+                violation(p, idx, d[0], ex, d[1], dict(text=text, envf=envf, envb=envb))
+                return True
+        if outcome:
+            p.outcome(outcome(rr))
+        else:
+            last = rr.ticks[-1]["framers"] if rr.ticks else []
+            p.outcome("|".join("%s/%s" % (f[1], f[4]) for f in last[:2]))
+        return False
+
+    st = explore.explore(prog, alphabet or F.ENV_ALPHABET, depth=depth or (6 if core.TIER == "quick" else 8),
+                         on_run=on_run, back_alphabet=back_alphabet, watch=watch)
+    p.states += st["states"]
+    p.transitions += st["transitions"]
+    p.traces += st["runs"]
+    p.capped = p.capped or st["capped"]
+    p.nontrivial(label)
+    if idx % sample_every == 0:
+        p.sample(dict(label=label, script=lang.emit(prog), bfs=st))
+    return st
